@@ -350,7 +350,8 @@ class Check:
                 pids = properties_of(c)
                 if c == 'harness.abort':
                     pids = {self.pid}     # the driver died on this code: reported, never ignored
-                if any(c.startswith(p) for p in self.own_clauses):
+                if c not in ('canon.pred_inverse', 'cache.sound') and \
+                        any(c.startswith(p) for p in self.own_clauses):
                     pids = pids | {self.pid}
                 if self.pid not in pids:
                     other[c] = other.get(c, 0) + 1
